@@ -49,6 +49,8 @@ func cmdCheck(args []string) int {
 			e.workers, _ = strconv.Atoi(args[i])
 		case "-noaccel":
 			e.noAccel = true
+		case "-noslice":
+			e.noSlice = true
 		case "-noifconv":
 			e.noIfConv = true
 		}
@@ -143,8 +145,8 @@ func cmdCheck(args []string) int {
 		return 3
 	}
 	st := e.stats
-	fmt.Printf("symgo: %s %s: paths done=%d cut=%d, decisions=%d, obligations sites=%d, queries feas=%d assert=%d (sat %d unsat %d unknown %d, cache %d), solver %.1fs, wall %.1fs\n",
-		prop, e.tier, e.pathsDone, e.pathsEnded, e.decisions, len(e.obligations), st.Feas, st.Assertion, st.SatN, st.UnsatN, st.UnknownN, st.CacheHits,
+	fmt.Printf("symgo: %s %s: paths done=%d cut=%d, decisions=%d, obligations sites=%d, queries feas=%d assert=%d (sat %d unsat %d unknown %d, cache %d, witness %d), solver %.1fs, wall %.1fs\n",
+		prop, e.tier, e.pathsDone, e.pathsEnded, e.decisions, len(e.obligations), st.Feas, st.Assertion, st.SatN, st.UnsatN, st.UnknownN, st.CacheHits, st.WitnessHits,
 		st.SolverTime.Seconds(), time.Since(t0).Seconds())
 	if rc == 1 {
 		return 1
